@@ -1,8 +1,190 @@
 import MidnightZK.Model.Common
-/-! Line-protocol handler of property C17 (stub: answers `unimplemented`). -/
+import MidnightZK.Model.ModArith
+import MidnightZK.Model.C17.Bytes
+import MidnightZK.Model.C17.Keys
+import MidnightZK.Model.C17.Blake2b
+import MidnightZK.Model.C17.Transcript
+import MidnightZK.Model.C17.Perm
+import MidnightZK.Model.C17.Params
+import MidnightZK.Model.C17.Zr
+import MidnightZK.Gen.C17Consts
+/-! Line-protocol handler of property C17. -/
 namespace MidnightZK.C17.Driver
+open MidnightZK MidnightZK.C17
 
-def answer (_line : String) : String := "unimplemented"
+/-! ### parsing / printing -/
+
+def hexVal (c : Char) : Option Nat :=
+  if '0' ≤ c ∧ c ≤ '9' then some (c.toNat - '0'.toNat)
+  else if 'a' ≤ c ∧ c ≤ 'f' then some (c.toNat - 'a'.toNat + 10)
+  else none
+
+/-- Even-length lowercase hex (or `-` for the empty string) to bytes. -/
+def parseBytes? (s : String) : Option Bytes :=
+  if s = "-" then some [] else
+  let st := s.foldl (fun (st : Option (List UInt8 × Option Nat)) c =>
+    match st, hexVal c with
+    | some (acc, none), some v => some (acc, some v)
+    | some (acc, some hi), some v => some (UInt8.ofNat (hi * 16 + v) :: acc, none)
+    | _, _ => none) (some ([], none))
+  match st with
+  | some (acc, none) => some acc.reverse
+  | _ => none
+
+def hexOf (b : Bytes) : String :=
+  if b.isEmpty then "-" else
+  String.ofList (b.flatMap (fun x => [hexDigit (x.toNat / 16), hexDigit (x.toNat % 16)]))
+
+def hexList (l : List Bytes) : String :=
+  if l.isEmpty then "-" else ",".intercalate (l.map hexOf)
+
+/-- `key=value` word with the given key. -/
+def kv (key : String) (w : String) : Option String :=
+  if w.startsWith (key ++ "=") then some (w.drop (key.length + 1)).toString else none
+
+def kvNat (key w : String) : Option Nat := (kv key w).bind parseNat?
+
+def fmtOf (s : String) : Option Format :=
+  if s = "P" then some .processed else if s = "R" then some .rawBytes
+  else if s = "U" then some .rawBytesUnchecked else none
+
+/-! ### instances -/
+
+/-- Points as opaque chunks: the driver checks structure, offsets and re-serialisation; the
+element codecs are C10/C11/C16's subject. -/
+def chunkCodec (plen : Nat) : Codec Bytes :=
+  { plen := plen, encC := id, encR := id, decC := some, decR := some, decU := id }
+
+def g1c : Codec Bytes := chunkCodec Gen.g1Compressed
+def g2c : Codec Bytes := chunkCodec Gen.g2Compressed
+def version : UInt8 := UInt8.ofNat Gen.vkVersion
+
+def r : Nat := Gen.frModulus
+abbrev Fr := Zr Gen.frModulus
+def fr (n : Nat) : Fr := Zr.ofNat r n
+/-- `R⁻¹ mod r` for `R = 2^256`. -/
+def rInv : Nat := invMod (2 ^ 256 % r) r
+def fromMont (v : Nat) : Nat := v * rInv % r
+
+/-- Field elements as raw Montgomery integers (`read_raw` checks `< modulus`). -/
+def frCodec : FCodec Nat :=
+  { flen := 32, enc := natLe 32, dec := fun b => let v := leNat b; if v < r then some v else none, decU := leNat }
+
+def rootOfUnity : Fr := fr (fromMont Gen.rootOfUnityMont)
+def rootOfUnityInv : Fr := fr (fromMont Gen.rootOfUnityInvMont)
+def twoInv : Fr := fr (fromMont Gen.twoInvMont)
+def delta : Fr := fr (fromMont Gen.deltaMont)
+
+/-- `EvaluationDomain::new` / `g_to_lagrange` / `unsafe_setup`: constants of the `2^k` domain. -/
+def dom (k : Nat) : Dom Fr :=
+  { omega := rootOfUnity.pow (2 ^ (Gen.frS - k))
+    omegaInv := rootOfUnityInv.pow (2 ^ (Gen.frS - k))
+    nInv := twoInv.pow k }
+
+def fmtFr (l : List Fr) : String := fmtHexList (l.map (·.val))
+
+/-! ### operations -/
+
+def vkAnswer (fmt : Format) (sh : Shape) (bs : Bytes) : String :=
+  match readVK g1c version fmt sh bs with
+  | .error e => e.code
+  | .ok (vk, rest) =>
+    let re := writeVK g1c version fmt vk
+    let same := re == bs.take (bs.length - rest.length)
+    s!"ok k={vk.k} fixed={hexList vk.fixed} perm={hexList vk.perm} rest={rest.length} rewrite={fmtBool same} len={bs.length}"
+
+def pkAnswer (fmt : Format) (sh : Shape) (bs : Bytes) : String :=
+  match readPK g1c frCodec version fmt sh bs with
+  | .error e => e.code
+  | .ok (pk, rest) =>
+    let re := writePK g1c frCodec version fmt pk
+    let same := re == bs.take (bs.length - rest.length)
+    let chk := (pk.fixedValues ++ pk.permutations).foldl (fun acc p => p.foldl (fun a v => (a + fromMont v) % r) acc) 0
+    let lens (ps : List (List Nat)) := fmtNatList (ps.map List.length)
+    s!"ok k={pk.vk.k} fixed={lens pk.fixedValues} perm={lens pk.permutations} chk={toHex chk} rest={rest.length} rewrite={fmtBool same} len={bs.length}"
+
+def paramsAnswer (fmt : Format) (bs : Bytes) : String :=
+  match readParams g1c g2c fmt bs with
+  | .error e => e.code
+  | .ok (p, rest) =>
+    let re := writeParams g1c g2c fmt p
+    let same := re == bs.take (bs.length - rest.length)
+    s!"ok k={p.k} g={hexList p.g} gl={hexList p.gLagrange} g2={hexOf p.g2} sg2={hexOf p.sG2} rest={rest.length} rewrite={fmtBool same}"
+
+def parseCopies? (s : String) : Option (List (Nat × Nat × Nat × Nat)) :=
+  if s = "-" then some [] else
+  (s.splitOn ",").mapM (fun t =>
+    match (t.splitOn ".").mapM String.toNat? with
+    | some [a, b, c, d] => some (a, b, c, d)
+    | _ => none)
+
+def permAnswer (t k ncols : Nat) (copies : List (Nat × Nat × Nat × Nat)) : String :=
+  let n := 2 ^ k
+  match (Assembly.new n ncols).copies copies with
+  | none => "err bounds"
+  | some a =>
+    let polys := buildPermutations t (dom k).omega delta n ncols (fun i j => get2 a.mapping (i, j))
+    if polys.isEmpty then "-" else "/".intercalate (polys.map fmtFr)
+
+def lagrangeSetup (k : Nat) (s : Fr) : List Fr := (setupS Zr.inv (dom k) s (2 ^ k)).gLagrange
+
+def answer (line : String) : String :=
+  match words line with
+  | ["vkparse", f, nf, np, deg, hex] =>
+    match (kv "fmt" f).bind fmtOf, kvNat "nf" nf, kvNat "np" np, kvNat "deg" deg, parseBytes? hex with
+    | some fmt, some nf, some np, some deg, some bs => vkAnswer fmt ⟨nf, np, deg, Gen.frS⟩ bs
+    | _, _, _, _, _ => "bad-op"
+  | ["pkparse", f, nf, np, deg, hex] =>
+    match (kv "fmt" f).bind fmtOf, kvNat "nf" nf, kvNat "np" np, kvNat "deg" deg, parseBytes? hex with
+    | some fmt, some nf, some np, some deg, some bs => pkAnswer fmt ⟨nf, np, deg, Gen.frS⟩ bs
+    | _, _, _, _, _ => "bad-op"
+  | ["trepr", nf, np, raw, desc] =>
+    match kvNat "nf" nf, kvNat "np" np, parseBytes? raw, parseBytes? desc with
+    | some nf, some np, some raw, some desc =>
+      -- the degree check is irrelevant for a key produced by keygen: degree 0 disables it
+      match readVK g1c version .rawBytesUnchecked ⟨nf, np, 0, Gen.frS⟩ raw with
+      | .ok (vk, []) =>
+        toHex (transcriptRepr g1c version
+          (hashToField Gen.treprHashLen (Gen.treprPersonal.map UInt8.ofNat) r) vk desc)
+      | .ok _ => "err trailing"
+      | .error e => e.code
+    | _, _, _, _ => "bad-op"
+  | ["perm", t, k, ncols, copies] =>
+    match kvNat "t" t, kvNat "k" k, kvNat "ncols" ncols, (kv "copies" copies).bind parseCopies? with
+    | some t, some k, some ncols, some copies => if t = 0 ∨ k > Gen.frS then "bad-op" else permAnswer t k ncols copies
+    | _, _, _, _ => "bad-op"
+  | ["commit", k, s, vals] =>
+    match kvNat "k" k, kvNat "s" s, parseNatList? vals with
+    | some k, some s, some vals =>
+      if k > 16 ∨ vals.length ≠ 2 ^ k then "bad-op" else
+      let lag := lagrangeSetup k (fr s)
+      toHex ((vals.zip lag).foldl (fun (acc : Fr) vl => acc + fr vl.1 * vl.2) 0).val
+    | _, _, _ => "bad-op"
+  | ["lagrange", "via=setup", k, s] =>
+    match kvNat "k" k, kvNat "s" s with
+    | some k, some s => if k > 16 then "bad-op" else fmtFr (lagrangeSetup k (fr s))
+    | _, _ => "bad-op"
+  | ["lagrange", "via=downsize", from_, k, s] =>
+    match kvNat "from" from_, kvNat "k" k, kvNat "s" s with
+    | some km, some k, some s =>
+      if km > 12 then "bad-op" else
+      match downsizeS dom (setupS Zr.inv (dom km) (fr s) (2 ^ km)) k with
+      | some p => fmtFr p.gLagrange
+      | none => "panic"
+    | _, _, _ => "bad-op"
+  | ["paramslayout", f, k] =>
+    match (kv "fmt" f).bind fmtOf, kvNat "k" k with
+    | some fmt, some k =>
+      let l1 := g1c.byteLen fmt
+      let l2 := g2c.byteLen fmt
+      let n := 2 ^ k
+      s!"len={4 + 2 * n * l1 + 2 * l2} g=4 gl={4 + n * l1} g2={4 + 2 * n * l1} sg2={4 + 2 * n * l1 + l2}"
+    | _, _ => "bad-op"
+  | ["paramsparse", f, hex] =>
+    match (kv "fmt" f).bind fmtOf, parseBytes? hex with
+    | some fmt, some bs => paramsAnswer fmt bs
+    | _, _ => "bad-op"
+  | _ => "bad-op"
 
 end MidnightZK.C17.Driver
 
